@@ -61,6 +61,33 @@
       iteration that the variable still holds the list it started with (else `Res.abort`): Python iterates over the live list;
     * `list(x)`, `str.strip()` (all of `str.isspace()`, the shared `strip`), `str.split(c)` / `str.index(c)` for one character,
       `str.isupper()` (ASCII), `sep.join(list of texts)`.
+
+  Extension for a class derived from `list` with fields and methods that call each other (`Tags.TagCollection`; the tie is
+  `Props/C18Code.lean`).  Further assumptions:
+
+    * an object of such a class is `obj fields` too: the list it IS sits under the reserved name `listPart` (no Python
+      attribute can be called `[list]`); `list.__init__(self)`, `list.append(self, x)`, `list.remove(self, x)` (statements:
+      `Stmt.baseCall`) act on it, `self[:]` (`Expr.sliceAll`) and `list(self)` read it (new lists).  The receiver is taken to be
+      an instance of EXACTLY that class (a subclass could override the methods), and the class to leave item access,
+      iteration and attribute assignment to `list` / `object` (the translator checks it);
+    * an element of a collection is the value `PyV.ancestor u`: an `AdvancedTag` identified by a number — here its uid, as in
+      the hand model (`Model/Coll.lean`).  `x.uid` and `x.getUid()` are that number (`int`), `==` between two elements (what
+      `list.remove` and `in` use) is equality of the numbers (`pyEqV`): `AdvancedTag.__eq__` compares the uids
+      (`Ident.Elem.eq` of the hand model), for two objects of the same class.  The translator checks that `getUid` and `__eq__`
+      have exactly those bodies; that uids are unique per element (uuid4) is outside;
+    * `set`: a duplicate-free list of hashable model values (`Val.set`, `Field.set`); `set()`, `x in s`, `s.add(x)`,
+      `s.remove(x)` (`KeyError` when absent; statements on a field of `self`);
+    * the methods of the class are in `Ctx.meths` by name, as functions from the receiver's fields and the arguments to the
+      fields afterwards and the result.  `methIn` builds that table from the dump in DEPENDENCY order: a method sees the
+      methods before it only (no recursion; a name outside the table is an `AttributeError`, never a value).  Three ways to
+      call: `x.m(args)` as a statement (`Stmt.varCall` on a variable holding an object: the variable holds what the method
+      left, also when it raises); the bound method `x.m` as a value (`Expr.boundMeth`, `Val.bound x m`: it NAMES the variable —
+      Python's bound method holds the object, which is the same as long as the variable is not rebound: the translator checks
+      that it is bound exactly once, before), called in an expression (`callBound`: the method must leave the object as it is,
+      or the call is `unsupported`); `C(args)` (`Expr.construct`: `__init__` on a new object without fields; it must return
+      `None`).  Arguments are copied in: a method that changed (or rebound) a parameter holding a mutable object is
+      refused (`callMeth`, guard `argsKept`), as is a bound method passed as an argument or returned;
+    * a field of the receiver with the name of a method would hide it in Python: such a call is `unsupported`.
 -/
 import AHP.Model.Basic
 import AHP.Model.Conv
